@@ -2,10 +2,13 @@
 # Builds every binary the checks need, offline, from /repo's working tree.
 set -e
 export CARGO_NET_OFFLINE=true
-cd /verif/sim
+cd "$(dirname "$0")"
+export VERIF_DIR="$(pwd)"
+export CARGO_TARGET_DIR="$VERIF_DIR/target"
+cd sim
 cargo build --offline --release
 cargo build --offline
-CARGO_TARGET_DIR=/verif/target/stream cargo build --offline --release --features stream-json-parser
+CARGO_TARGET_DIR="$VERIF_DIR/target/stream" cargo build --offline --release --features stream-json-parser
 cd /repo
-CARGO_TARGET_DIR=/verif/target/cli cargo build --offline --release -p rinklecate
-/verif/target/release/inksim list
+CARGO_TARGET_DIR="$VERIF_DIR/target/cli" cargo build --offline --release -p rinklecate
+"$VERIF_DIR/target/release/inksim" list
